@@ -44,6 +44,9 @@ def check(ctx, report):
     software_versions(ctx, report)
     eddsa_curves(ctx, report)
     ecdsa_points(ctx, report)
+    # algorithm names of the KEXINIT name-lists are matched exactly (RFC 4251 6: names are case-sensitive); shared with C10.R10
+    from .c10 import registry_names_exact
+    registry_names_exact(ctx, report, RULE='C07.R14')
     report.rule('C07.R8', 'name-lists: split at commas, order kept, unknown names preserved one by one')
     from ..textlists import string_array_table
     string_array_table(ctx, report, 'C07.R8', 'ssh')
@@ -278,8 +281,8 @@ def mpint_sign(ctx, report):
 
 # ---- R6 ---------------------------------------------------------------------------------------------------------
 
-def banner(ctx, report):
-    report.rule('C07.R6', 'identification string: SSH-protoversion-softwareversion SP comments CR LF, at most 255 bytes')
+def banner(ctx, report, RULE='C07.R6'):
+    report.rule(RULE, 'identification string: SSH-protoversion-softwareversion SP comments CR LF, at most 255 bytes')
     c = ctx.model.cls('SshProtocolMessage')
     # the line terminator is consumed exactly once: a run-consuming separator parse makes the reported length depend on the
     # bytes that follow the banner
@@ -289,12 +292,12 @@ def banner(ctx, report):
         for n in _ast.walk(pf.node):
             if isinstance(n, _ast.Call) and isinstance(n.func, _ast.Attribute) and n.func.attr == 'parse_separator' and n.args and \
                     isinstance(n.args[0], _ast.Constant) and n.args[0].value in ('\n', '\r\n'):
-                report.count('C07.R6')
-                report.add('C07.R6', pf.construct + '@terminator-run', 'the line feed that ends the identification string is parsed as a run of separators: '
+                report.count(RULE)
+                report.add(RULE, pf.construct + '@terminator-run', 'the line feed that ends the identification string is parsed as a run of separators: '
                            'line feeds that follow the banner are counted as part of it (n depends on the following bytes)')
     lay = ctx.canon.layout(c, 'compose')
     els = lay.elements
-    report.count('C07.R6', 3)
+    report.count(RULE, 3)
     seq = []
     for e in els:
         if e.kind.startswith('t:'):
@@ -307,9 +310,9 @@ def banner(ctx, report):
             ('string', 'self.software_version'), ('alt', [('separator', "' '"), ('string', 'self.comment')]), ('separator', "'\\r\\n'")]
     f = c.methods['compose']
     if seq != want:
-        report.add('C07.R6', f.construct + '@grammar', 'banner is composed as %s, RFC 4253 4.2 says %s' % (seq, want))
+        report.add(RULE, f.construct + '@grammar', 'banner is composed as %s, RFC 4253 4.2 says %s' % (seq, want))
     p = c.methods['_parse']
-    if banner_tabulation(ctx, report, c, p):
+    if banner_tabulation(ctx, report, c, p, RULE):
         return
     src = ast.unparse(p.node)
     from ..linform import guard_deficit, single_defs
@@ -322,12 +325,12 @@ def banner(ctx, report):
             if gd is not None and gd[1] and gd[0].const == -255 and len(gd[0].terms) == 1 and list(gd[0].terms.values()) == [1]:
                 limited = True
     if not limited:
-        report.add('C07.R6', p.construct + '@limit', 'the 255 byte limit of RFC 4253 4.2 is not enforced')
+        report.add(RULE, p.construct + '@limit', 'the 255 byte limit of RFC 4253 4.2 is not enforced')
     if "!= 'SSH'" not in src:
-        report.add('C07.R6', p.construct + '@prefix', 'the identification string is not required to start with SSH')
+        report.add(RULE, p.construct + '@prefix', 'the identification string is not required to start with SSH')
 
 
-def banner_tabulation(ctx, report, c, p):
+def banner_tabulation(ctx, report, c, p, RULE='C07.R6'):
     """SshProtocolMessage._parse evaluated (sa.miniexec over the ParserText model of sa/textmodel.py; the protocol version
     and software version classes replaced by models that read ``digits.digits`` resp. take the whole token) on identification
     strings with and without comment, with CR LF and with a bare LF, followed by further bytes, with a wrong or lower case
@@ -396,7 +399,7 @@ def banner_tabulation(ctx, report, c, p):
     problems = {}
     try:
         for banner, tail, want in cases:
-            report.count('C07.R6')
+            report.count(RULE)
             made.clear()
             data = (banner + tail).encode('latin-1')
             try:
@@ -426,7 +429,7 @@ def banner_tabulation(ctx, report, c, p):
         report.undecided.append('C07.R6: SshProtocolMessage._parse left the subset the tabulation understands (%s); decided on its syntax' % e)
         return False
     for k, v in problems.items():
-        report.add('C07.R6', p.construct + k, v)
+        report.add(RULE, p.construct + k, v)
     return True
 
 
